@@ -213,7 +213,16 @@ def c12(run):
                 'multi-byte characters, CR/LF, tokens at end of input; non-trivial = contains a multi-line token, a suffix '
                 'token or a multi-byte character; distinct by text')
     reqs = ['lex ' + hx(t) for t in cases]
-    m, im = run.tie(reqs, functional=True, desc=lambda i: {'text': cases[i]})
+
+    def proj12(r):
+        # what this property fixes: spans, positions, payloads, which tokens are line breaks -- not the NAME of the token
+        # kind (keyword classification is C02's observable, through the tree)
+        f = r.split(' ', 2)
+        if len(f) < 3 or f[0] != 'ok':
+            return r
+        return ';'.join(','.join([k.split(',')[0] if k.split(',')[0] in ('Newline', 'Number', 'StringLiteral', 'Comment', 'Error') else 'tok'] +
+                                 k.split(',')[1:]) for k in f[2].split(';'))
+    m, im = run.tie(reqs, proj=proj12, functional=True, desc=lambda i: {'text': cases[i]})
     for t, r in zip(cases, im):
         if r is None:
             continue
@@ -364,8 +373,9 @@ def c13(run):
     reqs = ['parse ' + hx(c[0]) for c in cases]
 
     def proj(r):
+        # the observable of this property: rejected or not, and the LINE named (not the internal error code)
         f = r.split(' ')
-        return ' '.join(f[:3]) if f[0] == 'err' else f[0]
+        return 'err ' + f[2] if f[0] == 'err' else f[0]
     m, im = run.tie(reqs, proj=proj, functional=True,
                     desc=lambda i: {'text': cases[i][0], 'fault': cases[i][2], 'line': cases[i][3]})
     for (text, cat, line, exp_line, off), r in zip(cases, im):
@@ -388,7 +398,7 @@ def c13(run):
 
     def proj13(r):
         f = r.split(' ')
-        return ' '.join(f[:3]) if f[0] == 'err' else f[0]
+        return 'err ' + f[2] if f[0] == 'err' else f[0]
     small_scope(run, proj13, 'rejection and its line')
 
 
